@@ -24,10 +24,13 @@ OfferPool == {Of("text", "html", {}, ""), Of("text", "plain", {}, ""), Of("appli
               Of("text", "html", P2, ""), Of("text", "html", {}, "html"), Of("application", "json", {}, "json")}
 \* token lists (Accept-Charset / -Encoding / -Language): a range is a token or "*", an offer is a token; they are written as
 \* media ranges with an empty subtype so that the same order and the same selection function decide them.  The three tokens
-\* are pairwise no prefixes of each other (the harness maps them to utf-8/iso-8859-1/us-ascii, gzip/br/deflate, en/de/fr).
+\* are pairwise no prefixes of each other (the harness maps them to utf-16/iso-8859-1/us-ascii, gzip/br/deflate, en/de/fr).
+\* "t1x" is a fourth name that only servers offer: it begins with the letters of t1 without being t1 (utf-16le, gzip2, eng) --
+\* a range names exactly one token, so t1 does not make t1x acceptable.  (What a range that EXTENDS an offer's name does is left
+\* to the implementation, which accepts it: t1x never occurs as a range.)
 Toks == {"t1", "t2", "t3"}
 TokRanges == {R(t, "", q, {}) : t \in Toks \cup {"*"}, q \in Qs}
-TokOffers == {Of(t, "", {}, "") : t \in Toks}
+TokOffers == {Of(t, "", {}, "") : t \in Toks \cup {"t1x"}}
 
 VARIABLES header, offers, stage, kind
 vars == <<header, offers, stage, kind>>
